@@ -100,4 +100,6 @@ def _check(prog, rep):
 
 
 def run(prog, rep):
+    from . import optconv
+    optconv.check(prog, rep, 'C16')
     guarded(rep, "C16.R1", KEY, lambda: _check(prog, rep))
